@@ -11,6 +11,7 @@ import (
 	"io"
 	"net"
 	"sync"
+	"sync/atomic"
 	"time"
 )
 
@@ -34,6 +35,7 @@ type End struct {
 	eof      bool  // peer closed its side: EOF after the queue drains
 	rerr     error // injected / reset: returned by Read at once
 	closed   bool  // this side closed
+	closedA  int32 // same, readable without the lock (a blocked Write of this side must notice)
 	Cap      int   // >0: a Write to this End blocks while that many bytes are queued
 	Coalesce bool  // Read may return bytes of several segments
 
@@ -152,7 +154,7 @@ func (e *End) Write(p []byte) (int, error) {
 		ferr = e.failWriteErr
 	}
 	if allowed > 0 {
-		if err := e.peer.deliver(p[:allowed]); err != nil {
+		if err := e.peer.deliver(p[:allowed], e); err != nil {
 			return 0, err
 		}
 		e.wroteTotal += int64(allowed)
@@ -163,11 +165,16 @@ func (e *End) Write(p []byte) (int, error) {
 	return len(p), nil
 }
 
-func (e *End) deliver(p []byte) error {
+func (e *End) deliver(p []byte, from *End) error {
 	e.mu.Lock()
 	defer e.mu.Unlock()
-	for e.Cap > 0 && e.queued >= e.Cap && !e.closed && e.rerr == nil {
+	// a full receive buffer blocks the writer until the reader drains it, the reader goes away, or the
+	// writer's own side is closed (like a socket: Close unblocks a pending Write)
+	for e.Cap > 0 && e.queued >= e.Cap && !e.closed && e.rerr == nil && atomic.LoadInt32(&from.closedA) == 0 {
 		e.cond.Wait()
+	}
+	if atomic.LoadInt32(&from.closedA) != 0 {
+		return ErrClosed
 	}
 	if e.closed || e.rerr != nil {
 		return ErrReset // the other side is gone: EPIPE-like
@@ -187,6 +194,7 @@ func (e *End) Close() error {
 		return nil
 	}
 	e.closed = true
+	atomic.StoreInt32(&e.closedA, 1)
 	e.cond.Broadcast()
 	e.mu.Unlock()
 	p := e.peer
@@ -209,8 +217,12 @@ func (e *End) Reset() {
 	p.mu.Unlock()
 	e.mu.Lock()
 	e.closed = true
+	atomic.StoreInt32(&e.closedA, 1)
 	e.cond.Broadcast()
 	e.mu.Unlock()
+	p.mu.Lock()
+	p.cond.Broadcast() // writers of this side blocked on the peer's full buffer
+	p.mu.Unlock()
 }
 
 // FailReadAfter makes Read on this End return err once n more bytes were delivered to the reader.
